@@ -280,7 +280,10 @@ func c03Scenarios() []*c03Scn {
 	netWide.gc = false
 	netWide.maxConns = 4
 	netWide.closedOps = true // repeated Done must not return a subnet slot twice
+	// tiny alphabet, deep: a subnet slot must be returned exactly once however often Done is repeated
+	netDone := c03Alpha{eps: []int{c03EPv4, c03EPv4b}, dirs: in1, fds: []bool{false}, maxConns: 4, closedOps: true}
 	for _, c := range []netCfg{
+		{"caps /32=2,/24=2 (repeated Done)", nil, []c03SubnetCap{{32, 2}, {24, 2}}, c03LooseSub6, 0, 8, 9, netDone},
 		// standard scopes full from the start: every allow-listed endpoint goes through the fallback
 		{"system=C0,alSystem=C2", []c03Set{{"system", pC0}, {"alSystem", pC2}}, c03LooseSub, c03LooseSub6, 0, 6, 7, netA},
 		{"transient=C0,alTransient=C1", []c03Set{{"transient", pC0}, {"alTransient", pC1}}, c03LooseSub, c03LooseSub6, 0, 6, 7, netA},
